@@ -183,3 +183,9 @@ def run(ck):
         from props import C10 as _C10
 
         common.import_results(ck, _C10, "6", "PingWaker", "3")
+    # ---- shared clauses demonstrated by seeding round 7 (the property broken from a distant module) --------------
+    from props import common as _c7
+    import importlib as _il
+    _m = lambda n: _il.import_module('props.' + n)
+    _c7.import_e3(ck, "3", lambda inst: True)  # enable() after disable() re-arms a wrapped timer
+
